@@ -404,6 +404,23 @@ fn complete_then<const KIND: u8, const NEXT: u8, const EXTRA: usize>() {
     std::mem::forget(f2);
 }
 
+/// Premise of the induction from steps (A) and (B): the deserializer's state is nothing but its
+/// buffer of unparsed bytes.  A run that combines both steps at the interesting points (buffer
+/// length after the failed attempt == length of the following frame) exhausts 25 GB, so the
+/// premise is checked structurally instead: the type has no room for any other state (a
+/// `PhantomData` aside).  A hidden cache - e.g. one keyed on the buffer length, seeded change
+/// C14-b - changes the size of the type and fails this harness.  Because a benign extra field would
+/// fail it too, a failure is reported as *inconclusive* (exit 2), not as a violation.
+#[kani::proof]
+fn c14_deserializer_state_is_buffer_only() {
+    assert!(
+        std::mem::size_of::<Deserializer<64, Frame<Tail>>>() == std::mem::size_of::<crate::bounded::BoundedVec<u8, 64>>(),
+        "PREMISE C14 chunking: the deserializer carries state besides its unparsed bytes - the two inductive steps no longer compose, chunking independence is not decided"
+    );
+    assert!(std::mem::size_of::<crate::bounded::BoundedVec<u8, 64>>() == std::mem::size_of::<Vec<u8>>());
+    kani::cover!(true);
+}
+
 macro_rules! prefix_harness {
     ($name:ident, $kind:expr, $cut:expr) => {
         #[kani::proof]
